@@ -306,3 +306,173 @@ Proof.
   rewrite forallb_forall in Hw. specialize (Hw p Hp). apply negb_true_iff in Hw.
   apply contains_star_In in Hstar. congruence.
 Qed.
+
+(* ================================================================== *)
+(* Names: which of them can matter at all                              *)
+(* ================================================================== *)
+
+Lemma existsb_bytes_eqb_In : forall x l, existsb (bytes_eqb x) l = true <-> In x l.
+Proof.
+  intros x l. rewrite existsb_exists. split.
+  - intros [y [Hy He]]. apply bytes_eqb_eq in He. now subst.
+  - intros H. exists x. split; [assumption|]. now apply bytes_eqb_eq.
+Qed.
+
+(* in a wildcard-free table whose patterns are all reserved names, a name that is not reserved
+   (empty, or with another base name) satisfies no row's name predicate *)
+Lemma unreserved_no_match : forall t r name,
+  no_wildcards t = true -> only_reserved_patterns t = true -> In r t ->
+  reserved_name name = false -> matches_name r name = Ok false.
+Proof.
+  intros t r name Hw Hr Hin Hn. rewrite (matches_name_exact t r name Hw Hin).
+  destruct name as [|c name]; [reflexivity|]. f_equal.
+  destruct (existsb (bytes_eqb (basename (c :: name))) (r_patterns r)) eqn:E; [|reflexivity].
+  exfalso. apply existsb_bytes_eqb_In in E.
+  unfold only_reserved_patterns in Hr. rewrite forallb_forall in Hr. specialize (Hr r Hin).
+  rewrite forallb_forall in Hr. specialize (Hr _ E).
+  unfold reserved_name in Hn. rewrite Hr in Hn. discriminate.
+Qed.
+
+Section Names.
+  Variable sniff : bytes -> bytes -> bool.
+  Variable parse : bytes -> bytes -> result info.
+
+  (* two names that every row's name predicate treats alike give the same candidates ... *)
+  Lemma candidates_name_irrelevant : forall t name1 name2 data,
+    (forall r, In r t -> matches_name r name1 = matches_name r name2) ->
+    candidates_in sniff t name1 data = candidates_in sniff t name2 data.
+  Proof.
+    induction t as [|r t IH]; intros name1 name2 data H; cbn [candidates_in]; [reflexivity|].
+    unfold row_matches. rewrite (H r (or_introl eq_refl)).
+    rewrite (IH name1 name2 data); [reflexivity|]. intros x Hx. apply H. now right.
+  Qed.
+
+  (* ... and therefore the same description: name invariance, for any table *)
+  Theorem name_invariance : forall t name1 name2 data,
+    (forall r, In r t -> matches_name r name1 = matches_name r name2) ->
+    inspect_in sniff parse t name1 data = inspect_in sniff parse t name2 data.
+  Proof.
+    intros t name1 name2 data H. unfold inspect_in.
+    now rewrite (candidates_name_irrelevant t name1 name2 data H).
+  Qed.
+
+  Theorem unreserved_names_equivalent_in : forall t name1 name2 data,
+    no_wildcards t = true -> only_reserved_patterns t = true ->
+    reserved_name name1 = false -> reserved_name name2 = false ->
+    inspect_in sniff parse t name1 data = inspect_in sniff parse t name2 data.
+  Proof.
+    intros t name1 name2 data Hw Hr H1 H2. apply name_invariance. intros r Hin.
+    now rewrite (unreserved_no_match t r name1 Hw Hr Hin H1), (unreserved_no_match t r name2 Hw Hr Hin H2).
+  Qed.
+
+  (* ---- content with a signature: the name cannot matter at all ---- *)
+  Lemma candidates_app : forall a b name data la lb,
+    candidates_in sniff a name data = Ok la -> candidates_in sniff b name data = Ok lb ->
+    candidates_in sniff (a ++ b) name data = Ok (la ++ lb).
+  Proof.
+    induction a as [|r a IH]; intros b name data la lb Ha Hb; cbn [app candidates_in] in *.
+    - inversion Ha; subst. exact Hb.
+    - destruct (row_matches sniff name data r) as [m| |]; try discriminate.
+      destruct (candidates_in sniff a name data) as [l| |] eqn:E; try discriminate.
+      rewrite (IH b name data l lb E Hb). inversion Ha; subst. now destruct m.
+  Qed.
+
+  (* the candidates that signature rows contribute do not depend on the name *)
+  Lemma sig_rows_candidates : forall pre name data, forallb is_sig_row pre = true ->
+    candidates_in sniff pre name data =
+      Ok (map r_parser (filter (fun r => matches_magic r data) pre)).
+  Proof.
+    induction pre as [|r pre IH]; intros name data H; cbn [candidates_in filter map]; [reflexivity|].
+    cbn [forallb] in H. apply andb_true_iff in H as [Hr Hp].
+    rewrite (sig_row_matches sniff r name data Hr), (IH name data Hp).
+    now destruct (matches_magic r data).
+  Qed.
+
+  (* once some candidate of a prefix succeeds, what follows the prefix is never looked at *)
+  Lemma first_success_decided : forall a x data,
+    (exists p i, In p a /\ parse p data = Ok i) ->
+    first_success parse (a ++ x) data = first_success parse a data.
+  Proof.
+    induction a as [|q a IH]; intros x data [p [i [Hin Hp]]]; [inversion Hin|].
+    cbn [app first_success]. destruct (parse q data) eqn:E; try reflexivity.
+    apply IH. destruct Hin as [->|Hin]; [congruence|]. now exists p, i.
+  Qed.
+
+  Lemma sig_prefix_split : forall t, exists post, t = sig_prefix t ++ post.
+  Proof.
+    induction t as [|r t [post IH]]; cbn [sig_prefix]; [now exists []|].
+    destruct (is_sig_row r); [|now exists (r :: t)].
+    exists post. cbn [app]. now rewrite <- IH.
+  Qed.
+
+  Lemma sig_prefix_sig : forall t, forallb is_sig_row (sig_prefix t) = true.
+  Proof.
+    induction t as [|r t IH]; cbn [sig_prefix]; [reflexivity|].
+    destruct (is_sig_row r) eqn:E; [|reflexivity]. cbn [forallb]. now rewrite E.
+  Qed.
+
+  (* C07, first sentence, for any wildcard-free table: content that matches a row of the leading
+     signature block whose parser accepts it gets a description that is computed from the
+     signature block and the content alone - the file name (reserved or not) and every row
+     after the signature block (name rows, sniffers) are irrelevant *)
+  Theorem signature_decides : forall t name data r i,
+    no_wildcards t = true ->
+    In r (sig_prefix t) -> matches_magic r data = true -> parse (r_parser r) data = Ok i ->
+    inspect_in sniff parse t name data =
+      first_success parse (map r_parser (filter (fun x => matches_magic x data) (sig_prefix t))) data.
+  Proof.
+    intros t name data r i Hw Hin Hm Hp.
+    destruct (sig_prefix_split t) as [post Ht].
+    assert (Hincl : incl post t). { intros x Hx. rewrite Ht. apply in_or_app. now right. }
+    destruct (candidates_total sniff t post name data Hw Hincl) as [lb Hlb].
+    pose proof (sig_rows_candidates (sig_prefix t) name data (sig_prefix_sig t)) as Hla.
+    unfold inspect_in. rewrite Ht at 1. rewrite (candidates_app _ _ _ _ _ _ Hla Hlb).
+    apply first_success_decided. exists (r_parser r), i. split; [|assumption].
+    apply in_map. apply filter_In. now split.
+  Qed.
+
+  Corollary signature_wins_any_name : forall t name name' data r i,
+    no_wildcards t = true ->
+    In r (sig_prefix t) -> matches_magic r data = true -> parse (r_parser r) data = Ok i ->
+    inspect_in sniff parse t name data = inspect_in sniff parse t name' data.
+  Proof.
+    intros t name name' data r i Hw Hin Hm Hp.
+    now rewrite (signature_decides t name data r i Hw Hin Hm Hp), (signature_decides t name' data r i Hw Hin Hm Hp).
+  Qed.
+End Names.
+
+Lemma table_only_reserved : only_reserved_patterns table = true.
+Proof. vm_compute. reflexivity. Qed.
+
+(* ---- what the hypotheses mean: tables that violate them ---- *)
+Definition parse_echo (p data : bytes) : result info := Ok (Info p [] []).
+Definition sniff_never (n data : bytes) : bool := false.
+
+(* a name-only row placed BEFORE a signature row (so that the signature row is no longer in the
+   leading signature block) does change the outcome for content carrying that signature *)
+Definition table_name_row_first : list row :=
+  [ mkrow [bs "*.cer"] [] [] (bs "ASN1File"); mkrow [] [bs "-----BEGIN "] [] (bs "PEMFile") ].
+
+Lemma name_row_before_signature_refuted :
+  exists r, In r table_name_row_first /\ is_sig_row r = true /\
+    matches_magic r (bs "-----BEGIN X-----") = true /\
+    parse_echo (r_parser r) (bs "-----BEGIN X-----") = Ok (Info (bs "PEMFile") [] []) /\
+    inspect_in sniff_never parse_echo table_name_row_first (bs "x.pem") (bs "-----BEGIN X-----")
+      <> inspect_in sniff_never parse_echo table_name_row_first (bs "x.cer") (bs "-----BEGIN X-----").
+Proof.
+  exists (mkrow [] [bs "-----BEGIN "] [] (bs "PEMFile")).
+  split; [right; now left|]. split; [reflexivity|]. split; [vm_compute; reflexivity|].
+  split; [reflexivity|]. vm_compute. discriminate.
+Qed.
+
+(* a name row for something other than a reserved name, placed before the sniffers (whose parser
+   never fails), makes the description of signature-less content depend on a non-reserved name *)
+Definition table_extra_name_row : list row :=
+  [ mkrow [] [bs "-----BEGIN "] [] (bs "PEMFile"); mkrow [bs "*.cer"] [] [] (bs "ASN1File");
+    mkrow [] [] (bs "IsBase64ASN1") (bs "Base64ASN1File") ].
+
+Lemma extra_name_row_refuted :
+  reserved_name (bs "x.cer") = false /\ reserved_name (bs "x.txt") = false /\
+  inspect_in (fun _ _ => true) parse_echo table_extra_name_row (bs "x.cer") (bs "TUlJ")
+    <> inspect_in (fun _ _ => true) parse_echo table_extra_name_row (bs "x.txt") (bs "TUlJ").
+Proof. split; [reflexivity|]. split; [reflexivity|]. vm_compute. discriminate. Qed.
